@@ -303,18 +303,25 @@ def run_case(case):
     via = annotate(arm, case, present)
     before = snapshot(storage, garm)
     guids = {d: 'adm-guid-' + d for d in case.get('guids', [])}
-    obs = {'garm': 'ARM', 'before': before, 'via': via, 'asked_guids': dict(guids)}
+    bad = case.get('bad_guid')
+    if bad and bad[0] == 'own':            # the caller names the aggregate model's own graph id
+        guids[bad[1]] = garm
+    elif bad and bad[0] == 'dup':          # the caller names one graph id for two delegation ids
+        guids[bad[1]] = guids[bad[2]] = 'adm-guid-dup'
+    ren = {garm: 'ARM'}
+    obs = {'garm': 'ARM', 'before': before, 'via': via, 'asked_guids': {d: ren.get(g, g) for d, g in guids.items()}}
     try:
         adms = arm.generate_adms(delegation_guids=guids or None)
     except Exception as e:
         obs['err'] = type(e).__name__
+        obs['store'] = sorted(ren.get(g, 'unexpected:' + str(g)) for g in store_graph_ids(storage))
         obs['after'] = snapshot(storage, garm)
         return obs
     obs['adms'] = {}
-    ren = {garm: 'ARM'}
     for d in sorted(adms):
         gid = adms[d].graph_id
-        ren[gid] = gid if d in guids else 'uuid-for-' + d
+        if gid not in ren:
+            ren[gid] = gid if d in guids else 'uuid-for-' + d
     for d in sorted(adms):
         gid = adms[d].graph_id
         obs['adms'][d] = {'gid': ren[gid], 'snap': strip_text(snapshot(storage, gid))}
@@ -411,8 +418,10 @@ def case_to_coq(case, o):
     enc = Enc(o['before'])
     A = enc.graph(o['before'])
     garm = enc.gid('ARM')
+    supplied = clist(['(%s, %s)' % (cN(enc.did(d)), cN(enc.gid(g))) for d, g in sorted(o['asked_guids'].items())])
     if 'err' in o:
-        adms, keys, rw = 'Err EQuery', '[]', '[]'
+        adms, rw = 'Err EQuery', '[]'
+        keys = clist([cN(x) for x in sorted(enc.gid(g) for g in o['store'])])
     else:
         # delegation ids are interned in sorted order so that "sorted by id" agrees on both sides
         for d in sorted(o['adms']):
@@ -429,7 +438,7 @@ def case_to_coq(case, o):
         rwa = '(Some (%s, %s, (%s, %s)))' % (cN(enc.did('real-arm')), clist([cN(enc.node(x)) for x in o['rw_arm']['order']]),
                                              enc.graph(o['rw_arm']['snap']),
                                          cbool(o['rw_arm']['raised'] is not None))
-    return 'mkCase %s %s (mkObs (%s) %s %s %s %s)' % (A, cN(garm), adms, keys, after, rw, rwa)
+    return 'mkCase %s %s %s (mkObs (%s) %s %s %s %s)' % (A, cN(garm), supplied, adms, keys, after, rw, rwa)
 
 
 # ------------------------------------------------------------------------------------------------
@@ -462,11 +471,20 @@ def oracle_case(case, o):
     B = o['before']
     if not B['nodes']:
         return None, None          # an empty model is outside the domain (only reachable by shrinking)
-    if 'err' in o:
-        return 'generate_adms raised %s on a valid annotated model' % o['err'], None
-    if o['after'] != B:
-        return 'source-untouched: the aggregate model was modified by generate_adms', None
     dids = all_dids(B)
+    sup = [g for d, g in sorted(o['asked_guids'].items()) if d in dids]
+    bad = 'ARM' in sup or len(set(sup)) != len(sup)
+    if o['after'] != B:
+        return 'source-untouched: the aggregate model was modified by generate_adms (delegation_guids %s)' % o['asked_guids'], None
+    if 'err' in o:
+        if not bad:
+            return 'generate_adms raised %s on a valid annotated model' % o['err'], None
+        if o['err'] != 'PropertyGraphQueryException' or o['store'] != ['ARM']:
+            return 'source-untouched: rejected delegation_guids left %s in the store (%s)' % (o['store'], o['err']), None
+        return None, None
+    if bad:
+        return ('source-untouched: generate_adms accepted delegation_guids naming the aggregate model itself or one '
+                'graph id twice: %s' % o['asked_guids']), None
     if set(o['adms'].keys()) != dids:
         return 'partition ids %s differ from the delegation ids present %s' % (sorted(o['adms']), sorted(dids)), None
     gids = [o['adms'][d]['gid'] for d in o['adms']]
@@ -560,7 +578,7 @@ class C13Stream(Stream):
 
     def to_coq(self, case, o):
         if 'build_error' in o:
-            return 'mkCase (mkGraph [] []) 0 (mkObs (Ok []) [] None [] None)'   # reported by the oracle
+            return 'mkCase (mkGraph [] []) 0 [] (mkObs (Ok []) [] None [] None)'   # reported by the oracle
         return case_to_coq(case, o)
 
     def oracle(self, case, o):
@@ -591,7 +609,7 @@ class C13Stream(Stream):
              'nodes_both': 0, 'nodes_none': 0, 'nodes_multi_id': 0, 'pool_definitions': 0, 'pool_references': 0,
              'stitch_nodes': 0, 'stitch_with_delegation': 0, 'empty_delegations_property': 0, 'via_annotate_api': 0,
              'links_with_3plus_cps': 0, 'interfaces_on_2plus_links': 0, 'proper_partitions': 0, 'partitions': 0, 'max_nodes': 0, 'total_nodes': 0,
-             'explicit_guids': 0, 'raised': 0}
+             'explicit_guids': 0, 'bad_guids_rejected': 0, 'raised': 0}
         for c, o in zip(cases, obs):
             if 'before' not in o:
                 continue
@@ -601,6 +619,7 @@ class C13Stream(Stream):
             h['via_annotate_api'] += o.get('via') == 'annotate'
             h['explicit_guids'] += bool(o.get('asked_guids'))
             h['raised'] += 'err' in o
+            h['bad_guids_rejected'] += 'err' in o and bool(c.get('bad_guid'))
             h['max_nodes'] = max(h['max_nodes'], len(B['nodes']))
             h['total_nodes'] += len(B['nodes'])
             for nid, n in B['nodes'].items():
@@ -711,6 +730,17 @@ def gen_annotations(rng, nodes, k, via):
     return ann
 
 
+def gen_bad_guid(rng, k):
+    """~8% of the cases: delegation_guids that must be rejected (the ARM's own graph id, or one id twice)"""
+    r = rng.random()
+    if r < 0.05:
+        return ['own', rng.choice(DIDS[:k])]
+    if r < 0.08 and k >= 2:
+        a, b = rng.sample(DIDS[:k], 2)
+        return ['dup', a, b]
+    return None
+
+
 class Topo(C13Stream):
     name = 'topo'
     rule = ('substrate models built with the SubstrateTopology API: 1-3 sites x 0-3 workers x 0-4 components, switch with '
@@ -750,6 +780,7 @@ class Topo(C13Stream):
             case['via'] = rng.choice(['annotate', 'direct'])
             case['ann'] = gen_annotations(rng, nodes, k, case['via'])
             case['guids'] = [d for d in DIDS[:k] if rng.random() < 0.3]
+            case['bad_guid'] = gen_bad_guid(rng, k)
             case['realid'] = rng.random() < 0.5
             case['rw_arm'] = rng.random() < 0.15
             out.append(case)
@@ -805,6 +836,7 @@ class Raw(C13Stream):
             nodemap = {nd[0]: (nd[1], nd[2] == 'true' and rng.random() < 0.7) for nd in nodes}
             case['ann'] = gen_annotations(rng, nodemap, k, 'direct')
             case['guids'] = [d for d in DIDS[:k] if rng.random() < 0.3]
+            case['bad_guid'] = gen_bad_guid(rng, k)
             case['realid'] = rng.random() < 0.5
             case['rw_arm'] = rng.random() < 0.5
             out.append(case)
@@ -846,30 +878,6 @@ def replay_one_hop():
                    'reading': 'b is kept, its link l2 and peer c are not'}
 
 
-def replay_own_guid():
-    """witness of C13_source_untouched_needs_fresh_ids_refuted on the implementation: delegation_guids names the
-    aggregate model's own graph id for one delegation id"""
-    with open(os.path.join(VERIF, 'corpus', 'C13', 'two_ids_one_node.json')) as f:
-        case = json.load(f)
-    case.pop('_comment', None)
-    _reset()
-    arm = build_topo(copy.deepcopy(case))
-    present = set(snapshot(arm.storage, arm.graph_id)['nodes'])
-    annotate(arm, case, present)
-    before = snapshot(arm.storage, arm.graph_id)
-    try:
-        arm.generate_adms(delegation_guids={'primary': arm.graph_id})
-        outcome = 'returned'
-    except Exception as e:
-        outcome = 'raised ' + type(e).__name__
-    after = snapshot(arm.storage, arm.graph_id)
-    _reset()
-    changed = [n for n in before['nodes'] if after['nodes'].get(n) != before['nodes'][n]]
-    still = outcome == 'returned' and after != before
-    return still, {'call': "generate_adms(delegation_guids={'primary': <the ARM's own graph id>})", 'outcome': outcome,
-                   'arm_modified': after != before, 'nodes_changed_or_removed': sorted(changed)[:6]}
-
-
 class C13(Check):
     pid = 'C13'
     translators = ['gen_adm13']
@@ -879,7 +887,7 @@ class C13(Check):
         'Coq 8.16.1 kernel (coqc), vm_compute for the correspondence evaluation; no native_compute',
         'Print Assumptions of every C13 theorem: Closed under the global context (no axioms)',
         'translator/gen_adm13.py + translator/pyast.py (class/relation arguments of the three trace calls, the '
-        'drop-list variable of the second-hop filter, the delegation-type order) -> Gen/Adm13Gen.v, fail-closed',
+        'drop-list variable of the second-hop filter, the delegation-type order, the guard on delegation_guids) -> Gen/Adm13Gen.v, fail-closed',
         'harness/c13.py + harness/common.py: case generation, snapshotting of the shared in-memory store, interning of '
         'ids/classes/relations/opaque property bags to N, independent decoding of the delegation JSON, cases.v writer',
         'modelled not verified: networkx Graph (adjacency, remove_node, copy), networkx_query.search_nodes, json, '
@@ -889,12 +897,12 @@ class C13(Check):
         'NodeIDs are unique within the aggregate model; edges join two distinct existing nodes, at most one per pair (wfb, '
         'checked on every generated case)',
         'delegation properties are decodable JSON dictionaries with unique ids (typed as id -> entry maps)',
-        'graph ids handed to the partitions are distinct from the aggregate model id and from each other (uuid4 / caller)',
+        'graph ids drawn by uuid4 are not the aggregate model id, not one another, not a caller-supplied id (uuid_fresh); '
+        'caller-supplied ids need no assumption (bad ones are rejected, 59579dc)',
     ]
 
     def refuted_witnesses(self):
-        return [('C13_closure_every_kept_interface_refuted', replay_one_hop),
-                ('C13_source_untouched_needs_fresh_ids_refuted', replay_own_guid)]
+        return [('C13_closure_every_kept_interface_refuted', replay_one_hop)]
 
 
 if __name__ == '__main__':
